@@ -200,6 +200,8 @@ func runC06(c *Ctx) {
 	c.RulePrefix = ""
 	c06AuthGate(c)
 	c06AbortableGroup(c)
+	transferRelRule(c, "R13")
+	adapterBegunRule(c, "R7")
 }
 
 // ---- who may decrement / increment the counter ------------------------------------------
